@@ -3,6 +3,7 @@ import TWV.Model.Search
 import TWV.Model.Arrays
 import TWV.Model.Match
 import TWV.Model.Rfa
+import TWV.Model.Funfit
 
 /-! # Operation dispatch of the model driver (one function per protocol operation) -/
 
@@ -114,6 +115,21 @@ def opRfa : List String → String
     | _, _, _, _, _, _, _, _, _ => bad
   | _ => bad
 
+def opFunfit : List String → String
+  | [name, pw, x, x0, y0, x1, y1] =>
+    match parsePw? pw, parseRat? x, parseRat? x0, parseRat? y0, parseRat? x1, parseRat? y1 with
+    | some pw, some x, some x0, some y0, some x1, some y1 =>
+      if x1 - x0 = 0 then "nan" else
+      match name with
+      | "lin_fit" => "ok " ++ fmtRat (linFit x (x0, y0) (x1, y1))
+      | "exp_fit" => "ok " ++ fmtRat (expFit pw x (x0, y0) (x1, y1))
+      | "exp_xy_fit" => "ok " ++ fmtRat (expXYFit pw x (x0, y0) (x1, y1))
+      | "exp_lin_fit" => "ok " ++ fmtRat (expLinFit pw x (x0, y0) (x1, y1))
+      | "lin_exp_xy_fit" => "ok " ++ fmtRat (linExpXYFit pw x (x0, y0) (x1, y1))
+      | _ => bad
+    | _, _, _, _, _, _ => bad
+  | _ => bad
+
 def dispatch1 (op : String) (args : List String) : Option String :=
     match op with
     | "search" => some (opSearch args)
@@ -124,6 +140,7 @@ def dispatch1 (op : String) (args : List String) : Option String :=
     | "rfaparams" => some (opRfaParams args)
     | "rfawin" => some (opRfaWin args)
     | "rfa" => some (opRfa args)
+    | "funfit" => some (opFunfit args)
     | _ => none
 
 end TWV.Driver
